@@ -46,7 +46,7 @@ def gen_meta_file(rng):
     for i in range(nk):
         key = "k%d_%s" % (i, rng.choice(["im", "sns", "file", "ni", "sync"]))
         tilde = rng.random() < 0.15
-        kind = rng.choice(["str", "int", "dec", "ilist", "empty", "small", "big", "zeros", "full"], p=[.28, .18, .13, .13, .05, .05, .05, .05, .08])
+        kind = rng.choice(["str", "int", "dec", "ilist", "empty", "small", "big", "zeros", "full", "flist"], p=[.26, .17, .12, .12, .05, .05, .05, .05, .08, .05])
         if kind == "str":
             v = str(rng.choice(WORDS))
             exp = v
@@ -76,6 +76,14 @@ def gen_meta_file(rng):
             v = str(rng.choice(["0", "0.0", "007", "10.50", "0,0,0", "00.25"]))
             exp = [float(t) for t in v.split(",")]
             exp = exp[0] if len(exp) == 1 else exp
+        elif kind == "flist":
+            # a list of numbers one of which carries decimals (a single decimal point in the whole value: the parser reads it as numbers)
+            xs = [str(int(rng.integers(0, 1000))) for _ in range(int(rng.integers(2, 6)))]
+            j = int(rng.integers(0, len(xs)))
+            xs[j] = xs[j] + "." + "".join(rng.choice(list("0123456789"), int(rng.integers(1, 6)))).rstrip("0")
+            xs[j] = xs[j].rstrip(".") if xs[j].endswith(".") else xs[j]
+            v = ",".join(xs)
+            exp = [float(t) for t in xs]
         elif kind == "ilist":
             xs = [int(rng.integers(0, 1000)) for _ in range(int(rng.integers(2, 6)))]
             v = ",".join(map(str, xs))
